@@ -740,6 +740,42 @@ def _elem_rank(t):
     return None
 
 
+def _elementwise_len(t, depth=0):
+    """length of an element-wise combination (arithmetic, min/max, rounding) of arrays of one known length and scalars:
+    np.maximum(a0 + k*d, a1 + k*d) for k = np.array(range(n))  has n items"""
+    if depth > 6:
+        return None
+    found = []
+
+    def atom_len(a):
+        if a.kind == 'seq':
+            return a.args[2]
+        if a.kind == 'call' and a.args[0] == 'array' and a.args[1]:
+            ia = a.args[1][0].single_atom()
+            if ia is not None and ia.kind == 'call' and ia.args[0] == 'range' and len(ia.args[1]) == 1 and not ia.args[2]:
+                return ia.args[1][0]
+            return _elementwise_len(a.args[1][0], depth + 1)
+        if a.kind == 'call' and a.args[0] in ('min', 'max', 'minimum', 'maximum', 'abs', 'round', 'floor', 'ceil', 'astype') \
+                and a.args[1]:
+            ls = [_elementwise_len(x, depth + 1) for x in a.args[1]]
+            ls = [x for x in ls if x is not None]
+            if ls and all(x.key == ls[0].key for x in ls):
+                return ls[0]
+        return None
+    if not isinstance(t, Term):
+        return None
+    for a in t.atoms():
+        n = atom_len(a)
+        if n is not None:
+            found.append(n)
+        elif a.kind in ('call', 'comp', 'list', 'tuple', 'store', 'ite') and not (a.kind == 'call' and a.args[0] in (
+                'len', 'size', 'floor', 'ceil', 'round', 'trunc', 'int', 'float', 'floordiv', 'mod', 'shape')):
+            return None            # something whose shape is not known
+    if found and all(x.key == found[0].key for x in found):
+        return found[0]
+    return None
+
+
 def _strip_array(t):
     a = t.single_atom()
     while a is not None and a.kind == 'call' and a.args[0] == 'array' and len(a.args[1]) == 1 and not a.args[2]:
@@ -1007,6 +1043,9 @@ def mk_call(fn, args=(), kwargs=()):
                     return mk_ite(c, mk_call(fn, [assume(x, {c.key: True}) for x in args]),
                                   mk_call(fn, [assume(x, {c.key: False}) for x in args]))
     if fn == 'len' and len(args) == 1:
+        n_ = _elementwise_len(args[0])
+        if n_ is not None:
+            return n_
         at = args[0].single_atom()
         if at is not None and at.kind in ('tuple', 'list'):
             return Term.num(len(at.args))
@@ -1067,17 +1106,49 @@ def _norm_index(idx):
     return idx
 
 
+def _item_of_elementwise(t, idx, depth=0):
+    """item `idx` of an element-wise combination of counting arrays np.array(range(n)) and scalars: the combination of the
+    items (the item of np.array(range(n)) at position i is i).  None when t is not of that form."""
+    if depth > 6 or _elementwise_len(t) is None:
+        return None
+    ok = [True]
+
+    def fn(a):
+        if a.kind == 'call' and a.args[0] == 'array' and a.args[1]:
+            ia = a.args[1][0].single_atom()
+            if ia is not None and ia.kind == 'call' and ia.args[0] == 'range' and len(ia.args[1]) == 1 and not ia.args[2]:
+                return idx
+        if a.kind == 'seq':
+            return a.args[0] + a.args[1] * idx
+        return None
+    r = subst(t, fn)
+    if any(x.kind == 'seq' or (x.kind == 'call' and x.args[0] == 'array') for x in all_atoms(r).values()):
+        return None
+    return r
+
+
 def mk_sub(base, idx):
     """select(base, idx) with store/tuple simplification."""
     base, idx = lift(base), _norm_index(lift(idx))
     if idx.key == FULL_SLICE_KEY:
         return base                 # x[:] has the same value as x
+    ia_ = idx.single_atom()
+    if ia_ is not None and ia_.kind == 'idx' and (base.single_atom() is None or base.single_atom().kind == 'call'):
+        it_ = _item_of_elementwise(base, idx)
+        if it_ is not None:
+            return it_
     at = base.single_atom()
     if at is not None:
         if at.kind in ('tuple', 'list'):
             c = idx.const()
             if c is not None and c.denominator == 1 and -len(at.args) <= c < len(at.args):
                 return at.args[int(c)]
+        if at.kind == 'call' and at.args[0] in ('sort', 'sorted') and len(at.args[1]) == 1 and not at.args[2]:
+            # sorted([a, b])[0] == min(a, b), [1] == max(a, b)
+            la_ = at.args[1][0].single_atom()
+            c_ = idx.const()
+            if la_ is not None and la_.kind in ('list', 'tuple') and len(la_.args) == 2 and c_ in (0, 1, -1, -2):
+                return mk_call('min' if c_ in (0, -2) else 'max', list(la_.args))
         if at.kind == 'str' and isinstance(at.args[0], str):
             # a character / constant slice of a text literal
             c = idx.const()
